@@ -1744,7 +1744,7 @@ def angular_separation(alpha1, delta1, alpha2, delta2):
     # Let's define an auxiliary function
     def hav(theta):
         """Function to compute the haversine (hav)"""
-        return (1.0 - cos(theta)) / 2.0
+        return sin(theta / 2.0) ** 2
 
     # First check that input values are of correct types
     if not (
@@ -1754,13 +1754,15 @@ def angular_separation(alpha1, delta1, alpha2, delta2):
         and isinstance(delta2, Angle)
     ):
         raise TypeError("Invalid input types")
-    dalpha = alpha1 - alpha2
+    dalpha = alpha2 - alpha1
     dalpha = dalpha.rad()
-    ddelta = delta1 - delta2
-    ddelta = ddelta.rad()
     d1 = delta1.rad()
     d2 = delta2.rad()
-    theta = 2.0 * asin(sqrt(hav(ddelta) + cos(d1) * cos(d2) * hav(dalpha)))
+    # Use the formulation with the arctangent, accurate for every separation
+    x = cos(d1) * sin(d2) - sin(d1) * cos(d2) * cos(dalpha)
+    y = cos(d2) * sin(dalpha)
+    z = sin(d1) * sin(d2) + cos(d1) * cos(d2) * cos(dalpha)
+    theta = atan2(sqrt(x * x + y * y), z)
     theta = Angle(theta, radians=True)
     return theta
 
